@@ -71,6 +71,9 @@ type StormSpec struct {
 	API      int `json:"api"`
 	StopLoMs int `json:"stop_lo_ms"`
 	StopHiMs int `json:"stop_hi_ms"`
+	// Fresh: per cent of the connections that use a client id never seen before (first touch of the per-client
+	// statistics, session creation) and subscribe with wildcards; 0 = the few colliding ids only
+	Fresh int `json:"fresh"`
 }
 
 type Scenario struct {
@@ -100,6 +103,8 @@ type Result struct {
 	Notes      []string               `json:"notes,omitempty"`
 	Fatal      string                 `json:"fatal,omitempty"`
 }
+
+var deliveryMode string // "" = the default of the configuration
 
 var (
 	res   = &Result{Stats: map[string]interface{}{}, Divs: []Div{}}
@@ -378,10 +383,19 @@ type bench struct {
 }
 
 func startBroker(gate func(string, map[string]interface{})) *bench {
+	return startBrokerRec(gate, true)
+}
+
+// startBrokerRec: with hooks = false the lifecycle hook events are not recorded (the recorder's mutex serialises the hook
+// points of all connections, which hides lock-order problems between them)
+func startBrokerRec(gate func(string, map[string]interface{}), hooks bool) *bench {
 	rec := inproc.NewRecorder()
-	rec.Hooks = true
+	rec.Hooks = hooks
 	p := &plug{}
 	cfg := inproc.DefaultConfig()
+	if deliveryMode != "" {
+		cfg.MQTT.DeliveryMode = deliveryMode
+	}
 	b, err := inproc.Start(inproc.Options{Cfg: cfg, Server: []server.Options{server.WithPlugin(p)}, Rec: rec, Gate: gate})
 	if err != nil {
 		fatal("broker start: " + err.Error())
@@ -393,7 +407,7 @@ func startBroker(gate func(string, map[string]interface{})) *bench {
 			probe := c.LocalAddr().String()
 			c.Close()
 			// ... and until the broker is done with the probe connection (scripts count accepted connections)
-			for j := 0; j < 200 && !hookSeen(rec, "closed", probe); j++ {
+			for j := 0; hooks && j < 200 && !hookSeen(rec, "closed", probe); j++ {
 				time.Sleep(5 * time.Millisecond)
 			}
 			break
@@ -1064,6 +1078,7 @@ func (s *stormClient) run(stopping *int32, wg *sync.WaitGroup) {
 	var cid string
 	var ver byte
 	var pid uint16
+	nfresh := 0
 	closeConn := func() {
 		if c != nil {
 			c.Close()
@@ -1137,6 +1152,10 @@ func (s *stormClient) run(stopping *int32, wg *sync.WaitGroup) {
 			}
 			ver = []byte{mw.V311, mw.V5, mw.V5, mw.V31}[s.rng.Intn(4)]
 			cid = fmt.Sprintf("id%d", s.rng.Intn(s.sc.Storm.IDs)) // few ids: same-id CONNECTs collide
+			if s.rng.Intn(100) < s.sc.Storm.Fresh {
+				nfresh++
+				cid = fmt.Sprintf("fresh%d_%d", s.i, nfresh)
+			}
 			c = mw.NewClient(conn, ver)
 			spec := ConnSpec{Ver: ver, CID: cid, Clean: s.rng.Intn(2) == 0}
 			if ver == mw.V5 && s.rng.Intn(2) == 0 {
@@ -1284,6 +1303,373 @@ func runStorm(sc *Scenario) {
 	res.Trace = lifecycle(bn.rec)
 }
 
+// ---------------------------------------------------------------- pairs (lock-order workload)
+
+// stopWatched calls Stop from a goroutine of its own: with a lock cycle in the broker Stop itself never returns (it takes
+// srv.mu before it looks at its context).  false = Stop is still running after its deadline + 2 s.
+func (bn *bench) stopWatched(timeout time.Duration) bool {
+	done := make(chan struct{})
+	go func() {
+		bn.stop(timeout)
+		close(done)
+	}()
+	select {
+	case <-done:
+		return true
+	case <-time.After(timeout + 2*time.Second):
+		return false
+	}
+}
+
+// lockWaiters names, for the goroutines of the broker that wait for a mutex, the function that asks for the lock and the
+// function of the broker it was called from (the shape of a lock-order cycle).
+func lockWaiters(gs []gor) string {
+	set := map[string]bool{}
+	for _, g := range gs {
+		if !strings.HasPrefix(g.State, "sync.Mutex") && !strings.HasPrefix(g.State, "sync.RWMutex") {
+			continue
+		}
+		k := g.Top
+		if len(g.Frames) > 1 {
+			k += "<" + g.Frames[1]
+		}
+		set[k] = true
+	}
+	var l []string
+	for k := range set {
+		l = append(l, k)
+	}
+	sort.Strings(l)
+	if len(l) > 8 {
+		l = l[:8]
+	}
+	return strings.Join(l, " | ")
+}
+
+// runPairs: W workers, each round a FRESH subscriber id (first touch of the per-client statistics) subscribes to two
+// overlapping filters, a FRESH publisher id publishes QoS 1 on a matching topic, the subscriber takes its copies, both
+// disconnect.  Sessions are created, subscription-store writers, deliveries (store read lock held while queues and
+// statistics are updated) and statistics first touches run against each other all the time.  Every request has the
+// request watchdog; API statistics reads run alongside.
+func runPairs(sc *Scenario) {
+	deliveryMode = []string{"overlap", "onlyonce"}[sc.Seed%2]
+	setStat("delivery_mode", deliveryMode)
+	bn := startBrokerRec(nil, false)
+	reqTO := time.Duration(sc.RequestMs) * time.Millisecond
+	var stuck int32
+	var wg sync.WaitGroup
+	unanswered := func(what string) {
+		if atomic.CompareAndSwapInt32(&stuck, 0, 1) {
+			gs, raw := gmqttGoroutines()
+			res.Goroutines = raw
+			lw := lockWaiters(gs)
+			sig := "unanswered:" + what
+			if lw != "" {
+				sig = "unanswered:lock-wait:" + lw
+			}
+			div(sig, fmt.Sprintf("pairs: no %s and no end of connection within %d ms; goroutines of the broker waiting for a mutex: %s", what, sc.RequestMs, lw), gs)
+		}
+	}
+	open := func(id string, ver byte) *mw.Client {
+		conn, err := net.DialTimeout("tcp", bn.b.Addr, time.Second)
+		if err != nil {
+			return nil
+		}
+		c := mw.NewClient(conn, ver)
+		c.Send(connectPacket(ConnSpec{Ver: ver, CID: id, Clean: true}))
+		stat("requests", 1)
+		if _, _, err := c.RecvType(mw.CONNACK, reqTO); err != nil {
+			if mw.IsTimeout(err) {
+				unanswered("CONNACK")
+			}
+			c.Close()
+			return nil
+		}
+		stat("answered", 1)
+		return c
+	}
+	ask := func(c *mw.Client, pk *mw.Packet, want byte) bool {
+		c.Send(pk)
+		stat("requests", 1)
+		if _, _, err := c.RecvType(want, reqTO); err != nil {
+			if mw.IsTimeout(err) {
+				unanswered(mw.TypeName(want))
+			}
+			return false
+		}
+		stat("answered", 1)
+		return true
+	}
+	for w := 0; w < sc.Storm.Clients; w++ {
+		wg.Add(1)
+		go func(w int) {
+			defer wg.Done()
+			for r := 0; r < sc.Storm.Ops && atomic.LoadInt32(&stuck) == 0; r++ {
+				pre := fmt.Sprintf("w%d_%d", w, r)
+				ver := []byte{mw.V311, mw.V5}[(w+r)%2]
+				sub := open("s"+pre, ver)
+				if sub == nil {
+					continue
+				}
+				// (the common filter makes every publication on all/x a delivery to every live subscriber: the store's
+				// read lock is held over that many queue and statistics updates)
+				okS := ask(sub, mw.Subscribe(1, mw.SubTopic{Filter: pre + "/end", QoS: 0}), mw.SUBACK) &&
+					ask(sub, mw.Subscribe(2, mw.SubTopic{Filter: pre + "/#", QoS: 1}, mw.SubTopic{Filter: pre + "/a", QoS: 2}), mw.SUBACK) &&
+					ask(sub, mw.Subscribe(3, mw.SubTopic{Filter: "$share/g/" + pre + "/a", QoS: 1}, mw.SubTopic{Filter: "all/#", QoS: 0}), mw.SUBACK) &&
+					ask(sub, mw.Unsubscribe(4, pre+"/x"), mw.UNSUBACK)
+				var pub *mw.Client
+				if okS {
+					pub = open("p"+pre, mw.V5)
+				}
+				for i := 0; pub != nil && i < 3; i++ {
+					pub.Send(mw.Publish("all/x", 0, false, 0, []byte("y")))
+					if !ask(pub, mw.Publish(pre+"/a", 2, false, uint16(7+i), []byte("x")), mw.PUBREC) {
+						break
+					}
+					pub.Send(mw.Ack(mw.PUBREL, uint16(7+i), 0))
+					pub.Send(mw.Publish(pre+"/end", 0, false, 0, []byte("e")))
+					stat("requests", 1)
+					deadline := time.Now().Add(reqTO)
+					for {
+						p, err := sub.Recv(time.Until(deadline))
+						if err != nil {
+							if mw.IsTimeout(err) {
+								unanswered("delivery")
+							}
+							i = 3
+							break
+						}
+						switch {
+						case p.Type == mw.PUBLISH && p.QoS == 1:
+							sub.Send(mw.Ack(mw.PUBACK, p.PacketID, 0))
+						case p.Type == mw.PUBLISH && p.QoS == 2:
+							sub.Send(mw.Ack(mw.PUBREC, p.PacketID, 0))
+						case p.Type == mw.PUBREL:
+							sub.Send(mw.Ack(mw.PUBCOMP, p.PacketID, 0))
+						}
+						if p.Type == mw.PUBLISH && p.Topic == pre+"/end" {
+							stat("answered", 1)
+							break
+						}
+					}
+				}
+				if pub != nil {
+					pub.Send(mw.Disconnect(0))
+					pub.Close()
+				}
+				sub.Close()
+			}
+		}(w)
+	}
+	stopAPI := make(chan struct{})
+	var awg sync.WaitGroup
+	for a := 0; a < sc.Storm.API; a++ {
+		awg.Add(1)
+		go func(a int) {
+			defer awg.Done()
+			srv := bn.b.Srv
+			for i := 0; ; i++ {
+				select {
+				case <-stopAPI:
+					return
+				default:
+				}
+				done := make(chan struct{})
+				go func() {
+					srv.StatsManager().GetClientStats(fmt.Sprintf("sw%d_%d", a, i%50))
+					srv.StatsManager().GetGlobalStats()
+					close(done)
+				}()
+				select {
+				case <-done:
+					stat("api_calls", 1)
+				case <-time.After(reqTO):
+					unanswered("statistics read")
+					return
+				}
+				time.Sleep(200 * time.Microsecond)
+			}
+		}(a)
+	}
+	wg.Wait()
+	close(stopAPI)
+	awg.Wait()
+	if !bn.stopWatched(time.Duration(sc.StopMs) * time.Millisecond) {
+		gs, _ := gmqttGoroutines()
+		div("stop-hangs:lock-cycle", fmt.Sprintf("pairs: Stop neither returned nor gave up at its deadline (%d ms + 2 s); waiting for a mutex: %s", sc.StopMs, lockWaiters(gs)), nil)
+		return
+	}
+	if bn.stopErr != nil {
+		gs, raw := gmqttGoroutines()
+		if res.Goroutines == "" {
+			res.Goroutines = raw
+		}
+		div("stop-timeout:"+causes(gs), fmt.Sprintf("pairs: Stop did not return within %d ms: %v; waiting for a mutex: %s", sc.StopMs, bn.stopErr, lockWaiters(gs)), nil)
+	} else {
+		gs, raw := settleGoroutines(2 * time.Second)
+		if len(gs) > 0 {
+			res.Goroutines = raw
+			div("alive-after-stop:"+causes(gs), fmt.Sprintf("pairs: Stop returned nil but goroutines of the broker are alive: %s", causes(gs)), gs)
+		}
+	}
+	setStat("stop_ms", bn.stopDur.Milliseconds())
+}
+
+// ---------------------------------------------------------------- lockorder (gated script from spec/LockOrder.tla)
+
+// runLockOrder forces the interleaving of a LockOrder.tla counter-example on a real broker:
+//
+//	deliver    a publication with two subscribers is parked at the `enqueue` hook of the first one: srv.mu and the
+//	           subscription store's read lock are held, the second queue.Add (which notifies the statistics) is to come
+//	subscribe  another client sends SUBSCRIBE: a writer announces itself on the store's lock
+//	third      "touch": a client id never seen before connects (first use of its statistics when CONNACK is written);
+//	           "statsread": StatsReader.GetClientStats of an existing client
+//	release    the parked delivery goes on
+//
+// Afterwards every request must be answered within the request watchdog: CONNACK / the statistics call, SUBACK, PUBACK,
+// a PINGRESP on every connection, and Stop must return.
+func runLockOrder(sc *Scenario) {
+	reqTO := time.Duration(sc.RequestMs) * time.Millisecond
+	parked := make(chan struct{})
+	release := make(chan struct{})
+	var once sync.Once
+	var armed int32
+	rec := inproc.NewRecorder()
+	p := &plug{}
+	cfg := inproc.DefaultConfig()
+	cfg.MQTT.DeliveryMode = "overlap" // every matching subscription is served while the store is iterated (under its read lock)
+	b, err := inproc.Start(inproc.Options{Cfg: cfg, Server: []server.Options{server.WithPlugin(p)}, Rec: rec,
+		TraceGate: func(ev string, kv map[string]interface{}) {
+			if ev == "enqueue" && atomic.LoadInt32(&armed) == 1 && kv["topic"] == "lo/t" {
+				once.Do(func() {
+					close(parked)
+					<-release
+				})
+			}
+		}})
+	if err != nil {
+		fatal("broker start: " + err.Error())
+	}
+	bn := &bench{b: b, p: p, rec: rec}
+	open := func(id string) *mw.Client {
+		for i := 0; i < 100; i++ {
+			conn, err := net.DialTimeout("tcp", b.Addr, time.Second)
+			if err != nil {
+				time.Sleep(10 * time.Millisecond)
+				continue
+			}
+			c := mw.NewClient(conn, mw.V5)
+			c.Send(connectPacket(ConnSpec{Ver: mw.V5, CID: id, Clean: true}))
+			if _, _, err := c.RecvType(mw.CONNACK, reqTO); err != nil {
+				fatal("lockorder: setup connection " + id + ": " + err.Error())
+			}
+			return c
+		}
+		fatal("lockorder: cannot dial")
+		return nil
+	}
+	s1, s2, w, pb := open("lo-s1"), open("lo-s2"), open("lo-w"), open("lo-p")
+	for i, c := range []*mw.Client{s1, s2} {
+		c.Send(mw.Subscribe(1, mw.SubTopic{Filter: "lo/t", QoS: 0}))
+		if _, _, err := c.RecvType(mw.SUBACK, reqTO); err != nil {
+			fatal(fmt.Sprintf("lockorder: setup subscription %d: %v", i, err))
+		}
+	}
+	third := sc.Conns[0].CID // "touch" | "statsread"
+	report := func(what string) {
+		gs, raw := gmqttGoroutines()
+		res.Goroutines = raw
+		div("unanswered:lock-cycle:"+third, fmt.Sprintf("lockorder (%s): %s within %d ms after the parked delivery was released; goroutines of the broker waiting for a mutex: %s",
+			third, what, sc.RequestMs, lockWaiters(gs)), gs)
+	}
+	// deliver: parked under srv.mu + the store's read lock
+	atomic.StoreInt32(&armed, 1)
+	pb.Send(mw.Publish("lo/t", 1, false, 9, []byte("m")))
+	select {
+	case <-parked:
+	case <-time.After(reqTO):
+		fatal("lockorder: the delivery never reached the enqueue hook")
+	}
+	// subscribe: the writer announces itself (there is no hook inside the store: give it time to reach Lock)
+	w.Send(mw.Subscribe(2, mw.SubTopic{Filter: "lo/w", QoS: 0}))
+	time.Sleep(150 * time.Millisecond)
+	// third party
+	thirdDone := make(chan string, 1)
+	go func() {
+		switch third {
+		case "touch":
+			conn, err := net.DialTimeout("tcp", b.Addr, time.Second)
+			if err != nil {
+				thirdDone <- "dial: " + err.Error()
+				return
+			}
+			c := mw.NewClient(conn, mw.V5)
+			defer c.Close()
+			c.Send(connectPacket(ConnSpec{Ver: mw.V5, CID: "lo-fresh", Clean: true}))
+			if _, _, err := c.RecvType(mw.CONNACK, 4*reqTO); err != nil {
+				thirdDone <- "no CONNACK for a new client id"
+				return
+			}
+			thirdDone <- ""
+		default:
+			b.Srv.StatsManager().GetClientStats("lo-s1")
+			thirdDone <- ""
+		}
+	}()
+	time.Sleep(150 * time.Millisecond)
+	close(release)
+	stuck := false
+	select {
+	case msg := <-thirdDone:
+		if msg != "" {
+			report(msg)
+			stuck = true
+		}
+	case <-time.After(reqTO):
+		report(map[string]string{"touch": "no CONNACK for a new client id", "statsread": "StatsReader.GetClientStats did not return"}[third])
+		stuck = true
+	}
+	if !stuck {
+		if _, _, err := w.RecvType(mw.SUBACK, reqTO); err != nil {
+			report("no SUBACK")
+			stuck = true
+		}
+	}
+	if !stuck {
+		if _, _, err := pb.RecvType(mw.PUBACK, reqTO); err != nil {
+			report("no PUBACK")
+			stuck = true
+		}
+	}
+	for _, c := range []*mw.Client{s1, s2, w, pb} {
+		if stuck {
+			break
+		}
+		c.Send(mw.Pingreq())
+		if _, _, err := c.RecvType(mw.PINGRESP, reqTO); err != nil {
+			report("no PINGRESP")
+			stuck = true
+		}
+	}
+	stat("requests", 8)
+	if !stuck {
+		stat("answered", 8)
+	}
+	if !bn.stopWatched(time.Duration(sc.StopMs) * time.Millisecond) {
+		gs, _ := gmqttGoroutines()
+		div("stop-hangs:lock-cycle", fmt.Sprintf("lockorder (%s): Stop neither returned nor gave up at its deadline (%d ms + 2 s); waiting for a mutex: %s", third, sc.StopMs, lockWaiters(gs)), nil)
+		return
+	}
+	if bn.stopErr != nil && !stuck {
+		gs, _ := gmqttGoroutines()
+		div("stop-timeout:"+causes(gs), fmt.Sprintf("lockorder: Stop did not return within %d ms: %v", sc.StopMs, bn.stopErr), nil)
+	}
+	for _, c := range []*mw.Client{s1, s2, w, pb} {
+		c.Close()
+	}
+	setStat("stop_ms", bn.stopDur.Milliseconds())
+}
+
 // unfinishedConns: connections that appear in the hook log without a `closed` event: never registered, registered after
 // stop.begin, registered before stop.begin.
 func unfinishedConns(rec *inproc.Recorder) (unreg, late, reg []string) {
@@ -1368,6 +1754,10 @@ func main() {
 		runGate(sc)
 	case "storm":
 		runStorm(sc)
+	case "pairs":
+		runPairs(sc)
+	case "lockorder":
+		runLockOrder(sc)
 	default:
 		fmt.Fprintln(os.Stderr, "unknown scenario kind", sc.Kind)
 		os.Exit(2)
